@@ -27,6 +27,9 @@ def apply_edits(db, edits):
                 db.enums[e[1] % len(db.enums)].name = e[2]
             elif k == 'gname':
                 db.table_groups[e[1] % len(db.table_groups)].name = e[2]
+            elif k == 'rtype' and len(db.refs) == 1:
+                # the kind of the only reference (with several, changing inline-ness reorders them on re-parse: finding D31)
+                db.refs[0].type = e[2]
         except ZeroDivisionError:
             pass
 
@@ -35,7 +38,17 @@ def roundtrip(job):
     """returns None, or (clause, detail)"""
     text, allow, cycles = job[:3]
     variant = job[3] if len(job) > 3 else None
-    k, db = prop_parse.parse_impl(text, allow)
+    if variant and variant[0] == 'api':
+        # the database is built through the public classes from the abstract description of the document (comments left out: a
+        # comment has no place of its own in the classes' constructors that the parser would read back)
+        import contentdb
+        try:
+            db = contentdb.build(variant[1], allow)
+        except Exception as e:   # noqa
+            return ('the content cannot be built through the public classes', repr(e))
+        k = 'ok'
+    else:
+        k, db = prop_parse.parse_impl(text, allow)
     if k != 'ok':
         return ('generated document rejected', db)
     if variant and variant[0] in ('deepcopy', 'pickle'):
@@ -90,9 +103,16 @@ def run(v, tier, st, pr):
         indomain = i % 4 != 3
         if indomain:
             docgen.restrict_for_roundtrip(A)
-        text, _ = docgen.render_doc(A, docgen.Style(r, level=r.choice([0, 1, 1])), allow, interleave=not indomain)
+        text, exp_ = docgen.render_doc(A, docgen.Style(r, level=r.choice([0, 1, 1])), allow, interleave=not indomain)
         if indomain:
             docs.append((text, allow, cycles))
+            if len(A['refs']) == 1 and A['refs'][0].get('form') == 'inline':
+                # the only reference, written inline, becomes many-to-many (never inline) and something else again
+                docs.append((text, allow, cycles, ('edits', [('rtype', 0, '<>')])))
+                docs.append((text, allow, cycles, ('edits', [('rtype', 0, '<>'), ('rtype', 0, r.choice(['>', '<', '-']))])))
+            if i % 4 == 2:
+                import copy as _copy
+                docs.append((text, allow, cycles, ('api', docgen.strip_comments(_copy.deepcopy(exp_)))))
             if i % 8 == 1:
                 # the same round trip for a deep copy / pickle round trip of the parsed database (original dropped and collected)
                 docs.append((text, allow, cycles, ('deepcopy' if i % 16 == 1 else 'pickle',)))
@@ -100,8 +120,8 @@ def run(v, tier, st, pr):
                 # ... and for the parsed database after renames through the public attributes (fresh bare names: inside the domain)
                 eds = []
                 for k_ in range(r.randint(1, 3)):
-                    kind = r.choice(['tname', 'tname', 'tschema', 'talias', 'cname', 'ename', 'gname'])
-                    new = 'rn%d_%d' % (i, k_)
+                    kind = r.choice(['tname', 'tname', 'tschema', 'talias', 'cname', 'ename', 'gname', 'rtype', 'rtype'])
+                    new = 'rn%d_%d' % (i, k_) if kind != 'rtype' else r.choice(['<>', '>', '<', '-'])
                     if kind == 'cname':
                         eds.append((kind, r.randint(0, 9), r.randint(0, 9), new))
                     else:
@@ -118,8 +138,8 @@ def run(v, tier, st, pr):
         if o is not None:
             inp = {'kind': 'document', 'text_hex': hexs(text), 'text': text, 'allow_properties': allow}
             if len(dj) > 3:
-                inp['then'] = repr(dj[3])
-            fails.append({'cause': 'oracle', 'clause': o[0] + ((' [after %s]' % dj[3][0]) if len(dj) > 3 else ''), 'detail': str(o[1])[:1500], 'input': inp})
+                inp['then'] = repr(dj[3])[:2000]
+            fails.append({'cause': 'oracle', 'clause': o[0] + ((' [%s]' % ('database built through the API from the same content' if dj[3][0] == 'api' else 'after ' + dj[3][0])) if len(dj) > 3 else ''), 'detail': str(o[1])[:1500], 'input': inp})
     # known findings: replay every witness; still failing ones are reported as known
     for f in load_known_findings()['findings']:
         if f['property'] != 'C02':
